@@ -2,7 +2,7 @@ CONSTANTS
  Hosts = {"api", "api2", "other", "plain"}
  MaxPerHost = 2
  MaxHops = 3
- MaxAuth = 3
+ Cut = 40
  Fixed = TRUE
  Emit = FALSE
  CredSources = {"helper", "urluser"}
@@ -11,5 +11,6 @@ VIEW View
 INVARIANT Confined
 INVARIANT NoDowngrade
 INVARIANT ChainBounded
+INVARIANT HelperSound
 ACTION_CONSTRAINT EmitEdge
 CHECK_DEADLOCK FALSE
